@@ -105,3 +105,188 @@ Ltac proj := cbn [maxc idle now conns active count acc reaper stops cancelled lc
                   set_conn set_active set_acc set_reaper set_stop set_flags set_wg set_now set_tickT].
 Ltac proj_in H := cbn [maxc idle now conns active count acc reaper stops cancelled lclosed wg live tickT
                   set_conn set_active set_acc set_reaper set_stop set_flags set_wg set_now set_tickT] in H.
+
+(* ---------- frame lemmas ---------- *)
+Lemma inv_set_flags s a b : Inv s -> Inv (set_flags s a b).
+Proof. intros I. destruct I as [I1 I2 I3 I4 I5 I6 I7 I8 I9 I10 I11 I12]. constructor; assumption. Qed.
+
+Lemma inv_set_stop s j p : Inv s -> stop_ok s p -> Inv (set_stop s j p).
+Proof.
+  intros I Hp. destruct I as [c_nodup0 c_count0 c_max0 c_conn0 c_active_ex0 c_live_ex0 c_live_nodup0 c_wg0 c_acc0 c_reaper0 c_tick0 c_stops0]. constructor; try assumption.
+  intros j' p' E. proj_in E. apply fset_cases in E. destruct E as [[-> ->]|[_ E]]; [exact Hp|exact (c_stops0 _ _ E)].
+Qed.
+
+Lemma inv_set_reaper s r : Inv s -> reaper_live (set_reaper s r) = reaper_live s -> reaper_ok (set_reaper s r) ->
+  Inv (set_reaper s r).
+Proof.
+  intros I L Hr. destruct I as [c_nodup0 c_count0 c_max0 c_conn0 c_active_ex0 c_live_ex0 c_live_nodup0 c_wg0 c_acc0 c_reaper0 c_tick0 c_stops0]. constructor; try assumption.
+  proj. rewrite L. exact c_wg0.
+Qed.
+
+(* replacing a connection record by one that differs only in k_once / k_closed *)
+Lemma inv_set_conn_frame s c k k' : Inv s -> conns s c = Some k ->
+  k_cnt k' = k_cnt k -> k_uncnt k' = k_uncnt k -> k_last k' = k_last k ->
+  k_live k' = k_live k -> (k_pc k = KPre -> k_pc k' = KPre) ->
+  match k_pc k' with
+  | KPre => acc_holds (acc s) c /\ (k_cnt k' = 1 <-> acc s = ARegistered c)
+  | KRejected => k_cnt k' = 0
+  | KServing | KUnreg _ => k_cnt k' = 1
+  | KFin | KDone => k_cnt k' = 1 /\ k_uncnt k' = 1
+  end ->
+  (k_once k' = ODone -> k_uncnt k' = 1) ->
+  Inv (set_conn s c k').
+Proof.
+  intros I E Hc Hu Hl Hlv Hpre Hcl Ho.
+  assert (RO : forall x, registered_once s x -> registered_once (set_conn s c k') x).
+  { intros x (kx & Ex & Cx). unfold registered_once. proj. destruct (N.eq_dec x c) as [->|Hne].
+    - rewrite fset_eq. exists k'. split; [reflexivity|]. congruence.
+    - rewrite fset_neq by exact Hne. eauto. }
+  assert (LK : forall x kx, fset (conns s) c k' x = Some kx ->
+               exists k0, conns s x = Some k0 /\ k_cnt kx = k_cnt k0 /\ k_uncnt kx = k_uncnt k0 /\
+                          k_last kx = k_last k0 /\ (x <> c -> kx = k0)).
+  { intros x kx Ex. apply fset_cases in Ex. destruct Ex as [[-> ->]|[Hne Ex]].
+    - exists k. repeat split; auto. intros; congruence.
+    - exists kx. repeat split; auto. }
+  destruct I as [c_nodup0 c_count0 c_max0 c_conn0 c_active_ex0 c_live_ex0 c_live_nodup0 c_wg0 c_acc0 c_reaper0 c_tick0 c_stops0].
+  constructor; proj; try assumption.
+  - intros x kx Ex. apply fset_cases in Ex. destruct Ex as [[-> ->]|[Hne Ex]].
+    + pose proof (c_conn0 _ _ E) as (B1 & B2 & B3 & B4 & B5 & B6 & B7).
+      unfold conn_ok. proj. rewrite Hc, Hu, Hl, Hlv. repeat split; auto; try tauto.
+      * intros Hd. rewrite <- Hu. auto.
+      * rewrite <- Hc, <- Hu. exact Hcl.
+    + exact (c_conn0 _ _ Ex).
+  - intros x Hx. destruct (N.eq_dec x c) as [->|Hne]; [rewrite fset_eq; eauto|rewrite fset_neq by exact Hne; auto].
+  - intros x Hx. destruct (N.eq_dec x c) as [->|Hne]; [rewrite fset_eq; eauto|rewrite fset_neq by exact Hne; auto].
+  - intros x Hx. destruct (c_acc0 _ Hx) as (kx & Ex & Px). destruct (N.eq_dec x c) as [->|Hne].
+    + rewrite fset_eq. exists k'. split; [reflexivity|]. apply Hpre. congruence.
+    + rewrite fset_neq by exact Hne. eauto.
+  - unfold reaper_ok in *. proj. destruct (reaper s); auto. destruct c_reaper0 as (R1 & R2 & R3).
+    repeat split; auto. intros x kx Hx Ex. destruct (LK _ _ Ex) as (k0 & E0 & A1 & A2 & A3 & A5).
+    rewrite A3. eauto.
+  - destruct c_tick0 as [T1 T2]. split; [exact T1|]. intros x kx Hx Ex.
+    destruct (LK _ _ Ex) as (k0 & E0 & A1 & A2 & A3 & A5). rewrite A3. eauto.
+  - intros j p Ej. pose proof (c_stops0 _ _ Ej) as Hs. unfold stop_ok in *.
+    destruct p; auto.
+    + destruct Hs as (S1 & S2 & S3). repeat split; auto.
+    + intros x Hx. destruct (Hs x Hx). split; auto.
+    + destruct Hs as [Hs W]. split; [|exact W]. intros x Hx. destruct (Hs x Hx). split; auto.
+    + intros x Hx. destruct (Hs x Hx). split; auto.
+Qed.
+
+Lemma inv_uncount s c k : Inv s -> conns s c = Some k -> In c (active s) ->
+  Inv (set_active (set_conn s c (k_with_once (k_uncounted k) ODone)) (remove_c c (active s)) (count s - 1)%Z).
+Proof.
+  intros I E Hin.
+  pose proof (c_conn _ I _ _ E) as (B1 & B2 & B3 & B4 & B5 & B6 & B7).
+  assert (Cn : k_cnt k = 1 /\ k_uncnt k = 0) by (apply B3; exact Hin). destruct Cn as [Cn Un].
+  set (k' := k_with_once (k_uncounted k) ODone).
+  assert (RO : forall x, registered_once s x -> registered_once (set_active (set_conn s c k') (remove_c c (active s)) (count s - 1)%Z) x).
+  { intros x (kx & Ex & Cx). unfold registered_once. proj. destruct (N.eq_dec x c) as [->|Hne].
+    - rewrite fset_eq. exists k'. split; [reflexivity|]. cbn. congruence.
+    - rewrite fset_neq by exact Hne. eauto. }
+  assert (LK : forall x kx, fset (conns s) c k' x = Some kx ->
+               (x = c /\ kx = k') \/ (x <> c /\ conns s x = Some kx)) by (intros; apply fset_cases; assumption).
+  destruct I as [c_nodup0 c_count0 c_max0 c_conn0 c_active_ex0 c_live_ex0 c_live_nodup0 c_wg0 c_acc0 c_reaper0 c_tick0 c_stops0].
+  constructor; proj.
+  - apply remove_c_NoDup. exact c_nodup0.
+  - pose proof (remove_c_length c (active s) c_nodup0 Hin). lia.
+  - intros Hm. specialize (c_max0 Hm). lia.
+  - intros x kx Ex. destruct (LK _ _ Ex) as [[-> ->]|[Hne Ex']].
+    + unfold conn_ok, k_live in *. proj. subst k'. cbn [k_cnt k_uncnt k_once k_last k_pc k_with_once k_uncounted].
+      repeat split; auto; try lia.
+      all: try (exfalso; match goal with H : In _ (remove_c _ _) |- _ => apply remove_c_In in H; tauto end).
+      all: try (intros Hx; apply remove_c_In in Hx; tauto).
+      all: try (intros [_ Hx]; lia).
+      all: try apply B6.
+      all: destruct (k_pc k); auto; try (destruct B7; lia).
+    + pose proof (c_conn0 _ _ Ex') as (D1 & D2 & D3 & D4 & D5 & D6 & D7).
+      unfold conn_ok. proj. repeat split; auto; try tauto.
+      all: try (match goal with H : In _ (remove_c _ _) |- _ => apply remove_c_In in H; tauto end).
+      all: try (apply remove_c_In; split; [tauto|exact Hne]).
+      all: try (intros Hx; apply remove_c_In in Hx; tauto).
+      all: try (intros Hx; apply remove_c_In; split; [tauto|exact Hne]).
+  - intros x Hx. apply remove_c_In in Hx. destruct Hx as [Hx Hne]. rewrite fset_neq by exact Hne. auto.
+  - intros x Hx. destruct (N.eq_dec x c) as [->|Hne]; [rewrite fset_eq; eauto|rewrite fset_neq by exact Hne; auto].
+  - exact c_live_nodup0.
+  - exact c_wg0.
+  - intros x Hx. destruct (c_acc0 _ Hx) as (kx & Ex & Px). destruct (N.eq_dec x c) as [->|Hne].
+    + rewrite fset_eq. exists k'. split; [reflexivity|]. cbn. congruence.
+    + rewrite fset_neq by exact Hne. eauto.
+  - unfold reaper_ok in *. proj. destruct (reaper s); auto. destruct c_reaper0 as (R1 & R2 & R3).
+    repeat split; auto. intros x kx Hx Ex. apply remove_c_In in Hx. destruct Hx as [Hx Hne].
+    rewrite fset_neq in Ex by exact Hne. eauto.
+  - destruct c_tick0 as [T1 T2]. split; [exact T1|]. intros x kx Hx Ex.
+    apply remove_c_In in Hx. destruct Hx as [Hx Hne]. rewrite fset_neq in Ex by exact Hne. eauto.
+  - intros j p Ej. pose proof (c_stops0 _ _ Ej) as Hs. unfold stop_ok in *. proj.
+    assert (NI : forall x, ~ In x (active s) -> ~ In x (remove_c c (active s)))
+      by (intros x Hx Hy; apply remove_c_In in Hy; tauto).
+    destruct p; auto.
+    + destruct Hs as (S1 & S2 & S3). repeat split; auto. intros x Hx. destruct (S3 x Hx); auto.
+    + intros x Hx. destruct (Hs x Hx). split; auto.
+    + destruct Hs as [Hs W]. split; [|exact W]. intros x Hx. destruct (Hs x Hx). split; auto.
+    + intros x Hx. destruct (Hs x Hx). split; auto.
+Qed.
+
+Lemma pc_clause_same s c k k' : conns s c = Some k -> Inv s -> k_pc k' = k_pc k -> k_cnt k' = k_cnt k -> k_uncnt k' = k_uncnt k ->
+  match k_pc k' with
+  | KPre => acc_holds (acc s) c /\ (k_cnt k' = 1 <-> acc s = ARegistered c)
+  | KRejected => k_cnt k' = 0
+  | KServing | KUnreg _ => k_cnt k' = 1
+  | KFin | KDone => k_cnt k' = 1 /\ k_uncnt k' = 1
+  end.
+Proof.
+  intros E I Hp Hc Hu. pose proof (c_conn _ I _ _ E) as (_ & _ & _ & _ & _ & _ & B7).
+  rewrite Hp, Hc, Hu. exact B7.
+Qed.
+
+Lemma not_active_uncounted s c k : Inv s -> conns s c = Some k -> k_cnt k = 1 -> ~ In c (active s) -> k_uncnt k = 1.
+Proof.
+  intros I E C N. pose proof (c_conn _ I _ _ E) as (B1 & B2 & B3 & _).
+  destruct (N.eq_dec (k_uncnt k) 0) as [Z|Z]; [exfalso; apply N; apply B3; auto|lia].
+Qed.
+
+(* one sub-step of unregisterConnection keeps the invariant (thread program counters untouched) *)
+Lemma unreg_inv s c u s1 nu : Inv s -> registered_once s c -> unreg_step s c u = Some (s1, nu) ->
+  Inv s1 /\ (nu = None -> ~ In c (active s1)) /\ reaper s1 = reaper s /\ stops s1 = stops s /\
+  (forall x kx, conns s x = Some kx -> exists kx', conns s1 x = Some kx' /\ k_pc kx' = k_pc kx) /\
+  (forall x, registered_once s x -> registered_once s1 x).
+Proof.
+  intros I (k & E & C) H. unfold unreg_step in H. rewrite E in H.
+  assert (Same : forall x kx, conns s x = Some kx -> exists kx', conns s x = Some kx' /\ k_pc kx' = k_pc kx) by eauto.
+  assert (SetSame : forall k', k_pc k' = k_pc k -> forall x kx, conns s x = Some kx ->
+            exists kx', fset (conns s) c k' x = Some kx' /\ k_pc kx' = k_pc kx).
+  { intros k' Hp x kx Ex. destruct (N.eq_dec x c) as [->|Hne].
+    - rewrite fset_eq. exists k'. split; [reflexivity|]. congruence.
+    - rewrite fset_neq by exact Hne. eauto. }
+  assert (SetRO : forall k', k_cnt k' = 1 -> forall x, registered_once s x ->
+            exists kx, fset (conns s) c k' x = Some kx /\ k_cnt kx = 1).
+  { intros k' Hc x (kx & Ex & Cx). destruct (N.eq_dec x c) as [->|Hne].
+    - rewrite fset_eq. eauto.
+    - rewrite fset_neq by exact Hne. eauto. }
+  destruct u.
+  - (* U1 *) injection H as <- <-. refine (conj I (conj _ (conj eq_refl (conj eq_refl (conj Same _))))); [|auto].
+    intros Hn. destruct (mem c (active s)) eqn:M; [discriminate|]. apply mem_false. exact M.
+  - (* U2 *) destruct (k_once k) eqn:O; try discriminate; injection H as <- <-.
+    + refine (conj _ (conj _ (conj eq_refl (conj eq_refl (conj _ _))))); proj.
+      * apply (inv_set_conn_frame s c k); auto; try reflexivity.
+        -- apply (pc_clause_same s c k); auto.
+        -- cbn. discriminate.
+      * discriminate.
+      * apply SetSame. reflexivity.
+      * intros x Hx. unfold registered_once; proj. eapply SetRO; [|exact Hx]. exact C.
+    + refine (conj I (conj _ (conj eq_refl (conj eq_refl (conj Same _))))); [|auto]. intros _.
+      pose proof (c_conn _ I _ _ E) as (B1 & B2 & B3 & B4 & _). specialize (B4 O). intros Hin. apply B3 in Hin. lia.
+  - (* U3 *) destruct (mem c (active s)) eqn:M; injection H as <- <-.
+    + apply mem_In in M. refine (conj _ (conj _ (conj eq_refl (conj eq_refl (conj _ _))))); proj.
+      * apply inv_uncount; auto.
+      * intros _ Hin. apply remove_c_In in Hin. tauto.
+      * apply SetSame. reflexivity.
+      * intros x Hx. unfold registered_once; proj. eapply SetRO; [|exact Hx]. exact C.
+    + apply mem_false in M. refine (conj _ (conj _ (conj eq_refl (conj eq_refl (conj _ _))))); proj.
+      * apply (inv_set_conn_frame s c k); auto; try reflexivity.
+        -- apply (pc_clause_same s c k); auto.
+        -- intros _. cbn. apply (not_active_uncounted s c k); auto.
+      * intros _. exact M.
+      * apply SetSame. reflexivity.
+      * intros x Hx. unfold registered_once; proj. eapply SetRO; [|exact Hx]. exact C.
+Qed.
